@@ -26,6 +26,7 @@ type c13Pair struct {
 	Alias [3]uint64 `json:"alias"`
 	Name  string    `json:"name"`
 	Keep  bool      `json:"keep"`
+	Comp  compSpec  `json:"comp"` // compression of the sender: its large messages travel as Z frames, the small ones plain
 }
 
 type c13Op struct {
@@ -49,6 +50,7 @@ type c13Obs struct {
 	PoolLens  []int
 	Delivered []int // global send index in order of the Route* calls at the receiver, -1 = unknown value
 	Lost      int
+	ZFrames   int
 	Log       []string
 	SendErr   []string
 }
@@ -115,6 +117,9 @@ func genC13Case(r *rand.Rand, i int) c13Case {
 		p.Alias = [3]uint64{genID(r), 1000 + uint64((i*5+k)%255) + 255*uint64(r.Intn(3)), genID(r)}
 		p.Name = fmt.Sprintf("srv%d", k)
 		p.Keep = r.Intn(12) != 0
+		if r.Intn(3) == 0 {
+			p.Comp = compSpec{Enable: true, Type: []string{"gzip", "zlib", "lzw"}[r.Intn(3)], Level: r.Intn(3), Threshold: 1024}
+		}
 		c.Pairs = append(c.Pairs, p)
 	}
 	n := 4 + r.Intn(6)
@@ -182,10 +187,19 @@ func corpusC13() []c13Case {
 		g.Ops = append(g.Ops, c13Op{Op: "send", Pair: 0})
 	}
 	g.Ops = append(g.Ops, c13Op{Op: "release", Link: 1}, c13Op{Op: "release", Link: 0})
-	return []c13Case{c1, c2, c3, g}
+	z := mk(1003, 1009, 2, "large messages compressed, small ones plain: both must select the receiver's queue by the receiver id")
+	z.Pairs[0].Comp = compSpec{Enable: true, Type: "gzip", Threshold: 1024}
+	return []c13Case{c1, c2, c3, g, z}
 }
 
-func c13Value(k, seq int) string { return fmt.Sprintf("pair-%d-seq-%d-%s", k, seq, strings.Repeat("z", (seq*37+k*11)%90)) }
+func c13Value(k, seq int, big bool) string {
+	v := fmt.Sprintf("pair-%d-seq-%d-%s", k, seq, strings.Repeat("z", (seq*37+k*11)%90))
+	if big {
+		// above the compression threshold: this one is sent as a compressed frame
+		v += strings.Repeat(fmt.Sprintf("-payload%d", seq), 180+seq*7)
+	}
+	return v
+}
 
 func runC13Case(c c13Case) (o c13Obs) {
 	p, err := newPair(pairCfg{Pool: c.PoolCfg, Important: true, Policy: "random", Seed: int64(len(c.Ops))*7919 + int64(c.Pool)})
@@ -230,9 +244,9 @@ func runC13Case(c c13Case) (o c13Obs) {
 		switch op.Op {
 		case "send":
 			pr := &c.Pairs[op.Pair]
-			v := c13Value(op.Pair, seqs[op.Pair])
+			v := c13Value(op.Pair, seqs[op.Pair], pr.Comp.Enable && (seqs[op.Pair]+op.Pair)%2 == 0)
 			seqs[op.Pair]++
-			m := msgSpec{Kind: pr.Kind, From: pr.From, To: pr.To, Alias: pr.Alias, Name: pr.Name, Keep: pr.Keep, Ref: [3]uint64{uint64(len(sent)) + 1, 2, 3}}
+			m := msgSpec{Kind: pr.Kind, From: pr.From, To: pr.To, Alias: pr.Alias, Name: pr.Name, Keep: pr.Keep, Comp: pr.Comp, Ref: [3]uint64{uint64(len(sent)) + 1, 2, 3}}
 			sent = append(sent, v)
 			sentPair = append(sentPair, op.Pair)
 			o.PoolLens = append(o.PoolLens, poolLen)
@@ -283,8 +297,17 @@ func runC13Case(c c13Case) (o c13Obs) {
 	for li, l := range p.links {
 		tap, _ := l.ab.snapshot()
 		for _, fr := range splitFrames(tap) {
+			inner := fr
+			if len(fr) >= 13 && fr[7] == 200 { // compressed frame: the order byte is in the outer header
+				d, err := stdDecompress(int(fr[8]), fr[13:])
+				if err != nil {
+					continue
+				}
+				inner = d
+				o.ZFrames++
+			}
 			for i, v := range sent {
-				if bytes.HasSuffix(fr, edfBytes(v)) {
+				if bytes.HasSuffix(inner, edfBytes(v)) {
 					o.Links[i] = li
 					o.Orders[i] = int(fr[6])
 				}
@@ -443,8 +466,12 @@ func runC13(n int, outPath, replay string) {
 			if !p.Keep {
 				out.Stats["keep-order-off"]++
 			}
+			if p.Comp.Enable {
+				out.Stats["pairs-mixing-compressed-and-plain"]++
+			}
 		}
 		out.Stats["messages"] += len(o.Delivered)
+		out.Stats["compressed-frames"] += o.ZFrames
 		out.Stats["lost"] += o.Lost
 	}
 	out.Stats["residues-from"] = len(resFrom)
